@@ -417,8 +417,8 @@ fn supp_pal() -> Vec<RSuppPub> {
 }
 
 pub fn explore(ex: &Ex) {
-    let depth_big = ex.pick(2usize, 4, 5);
-    let depth_small = ex.pick(3usize, 5, 7);
+    let depth_big = ex.pick(2usize, 4, 6);
+    let depth_small = ex.pick(3usize, 5, 8);
     let cap = ex.pick(20_000usize, 2_000_000, 30_000_000);
 
     // HeaderBuilder
